@@ -186,12 +186,9 @@ impl Prop for C10 {
                 return o;
             }
             Ok(Err(errs)) => {
-                let sig = if lay.features.iter().any(|f| f == "block-comment-line-starting-with-slash") {
-                    "C10/valid-grammar-rejected/comment-line-starting-with-slash"
-                } else {
-                    "C10/valid-grammar-rejected"
-                };
-                o.fail("wrong", sig, format!("{:?}\n{text}", errs));
+                // the signature names the kind of the first error, so that different causes stay apart
+                let kind = errs.first().map(|e| format!("{:?}", e).split(|c: char| !c.is_alphanumeric()).filter(|w| !w.is_empty()).nth(2).unwrap_or("error").to_string()).unwrap_or_default();
+                o.fail("wrong", format!("C10/valid-grammar-rejected/{kind}"), format!("{:?}\n{text}", errs));
                 return o;
             }
             Ok(Ok(g)) => g,
